@@ -926,14 +926,23 @@ impl Interpreter {
             (None, None)
         };
 
-        // All imports satisfied - set up import bindings first
-        self.setup_import_bindings(&program)?;
-
-        // Compile the program to bytecode
-        let chunk = if let Some(ref path) = module_path {
-            Compiler::compile_program_with_source(&program, path.as_str().to_string())?
-        } else {
-            Compiler::compile_program(&program)?
+        // All imports satisfied - set up import bindings first, then compile the program to
+        // bytecode. A failure here must not leave the module scope installed.
+        let compiled = self.setup_import_bindings(&program).and_then(|()| {
+            if let Some(ref path) = module_path {
+                Compiler::compile_program_with_source(&program, path.as_str().to_string())
+            } else {
+                Compiler::compile_program(&program)
+            }
+        });
+        let chunk = match compiled {
+            Ok(chunk) => chunk,
+            Err(e) => {
+                if let Some(saved) = saved_env {
+                    self.env = saved;
+                }
+                return Err(e);
+            }
         };
 
         // Run the bytecode VM
@@ -1267,7 +1276,14 @@ impl Interpreter {
             }
             VmStepResult::Terminal(vm_result) => {
                 // Terminal state - process and clear active execution state
-                let result = self.process_vm_result(*vm_result)?;
+                let result = match self.process_vm_result(*vm_result) {
+                    Ok(result) => result,
+                    Err(e) => {
+                        // The run died: do not leave its module scope installed
+                        self.abort_active_execution();
+                        return Err(e);
+                    }
+                };
 
                 // If not suspended (i.e., actually complete), finalize
                 if matches!(result, crate::StepResult::Complete(_)) {
@@ -1353,14 +1369,25 @@ impl Interpreter {
         let module_path = self.active_module_path.take();
 
         // Restore environment and finalize exports if we used a module environment
-        if let (Some(saved), Some(env)) = (saved_env, module_env) {
+        if let Some(saved) = saved_env {
             self.env = saved;
-
-            // Store the main module exports
-            if let Some(path) = module_path {
-                self.finalize_module_exports(path, env);
-            }
         }
+        if let (Some(env), Some(path)) = (module_env, module_path) {
+            // Store the main module exports
+            self.finalize_module_exports(path, env);
+        }
+    }
+
+    /// Drop the bookkeeping of a run that failed or was abandoned by the host: restore the
+    /// environment that was current before the run's module scope was installed and forget
+    /// its VM, so that the next program starts from a clean interpreter.
+    fn abort_active_execution(&mut self) {
+        self.active_vm = None;
+        if let Some(saved) = self.active_saved_env.take() {
+            self.env = saved;
+        }
+        self.active_module_env = None;
+        self.active_module_path = None;
     }
 
     /// Prepare code for step-based execution without running it.
@@ -1375,6 +1402,11 @@ impl Interpreter {
     ) -> Result<StepResult, JsError> {
         use crate::compiler::Compiler;
         use bytecode_vm::BytecodeVM;
+
+        // A previous run that the host stopped stepping must not leak its scope into this one
+        if self.active_vm.is_some() {
+            self.abort_active_execution();
+        }
 
         // Set main module path if this is the entry point
         if self.main_module_path.is_none() {
@@ -1400,6 +1432,8 @@ impl Interpreter {
         }
 
         // Create module environment for main module (if module_path is provided)
+        // The environment current before the run is always remembered, so that a run that
+        // fails or is abandoned inside a call can be unwound (see abort_active_execution).
         let (saved_env, module_env) = if module_path.is_some() {
             let saved = self.env.cheap_clone();
             let module_env = self.create_module_environment();
@@ -1407,17 +1441,26 @@ impl Interpreter {
             self.env = module_env.cheap_clone();
             (Some(saved), Some(module_env))
         } else {
-            (None, None)
+            (Some(self.env.cheap_clone()), None)
         };
 
-        // All imports satisfied - set up import bindings first
-        self.setup_import_bindings(&program)?;
-
-        // Compile the program to bytecode
-        let chunk = if let Some(ref path) = module_path {
-            Compiler::compile_program_with_source(&program, path.as_str().to_string())?
-        } else {
-            Compiler::compile_program(&program)?
+        // All imports satisfied - set up import bindings first, then compile the program to
+        // bytecode. A failure here must not leave the module scope installed.
+        let compiled = self.setup_import_bindings(&program).and_then(|()| {
+            if let Some(ref path) = module_path {
+                Compiler::compile_program_with_source(&program, path.as_str().to_string())
+            } else {
+                Compiler::compile_program(&program)
+            }
+        });
+        let chunk = match compiled {
+            Ok(chunk) => chunk,
+            Err(e) => {
+                if let Some(saved) = saved_env {
+                    self.env = saved;
+                }
+                return Err(e);
+            }
         };
 
         // Create VM but don't run it
@@ -1537,6 +1580,8 @@ impl Interpreter {
         }
 
         // Create module environment for main module (if module_path is provided)
+        // The environment current before the run is always remembered, so that a run that
+        // fails or is abandoned inside a call can be unwound (see abort_active_execution).
         let (saved_env, module_env) = if module_path.is_some() {
             let saved = self.env.cheap_clone();
             let module_env = self.create_module_environment();
@@ -1544,17 +1589,26 @@ impl Interpreter {
             self.env = module_env.cheap_clone();
             (Some(saved), Some(module_env))
         } else {
-            (None, None)
+            (Some(self.env.cheap_clone()), None)
         };
 
-        // All imports satisfied - set up import bindings first
-        self.setup_import_bindings(&program)?;
-
-        // Compile the program to bytecode
-        let chunk = if let Some(ref path) = module_path {
-            Compiler::compile_program_with_source(&program, path.as_str().to_string())?
-        } else {
-            Compiler::compile_program(&program)?
+        // All imports satisfied - set up import bindings first, then compile the program to
+        // bytecode. A failure here must not leave the module scope installed.
+        let compiled = self.setup_import_bindings(&program).and_then(|()| {
+            if let Some(ref path) = module_path {
+                Compiler::compile_program_with_source(&program, path.as_str().to_string())
+            } else {
+                Compiler::compile_program(&program)
+            }
+        });
+        let chunk = match compiled {
+            Ok(chunk) => chunk,
+            Err(e) => {
+                if let Some(saved) = saved_env {
+                    self.env = saved;
+                }
+                return Err(e);
+            }
         };
 
         // Create VM
@@ -1711,7 +1765,12 @@ impl Interpreter {
         self.env = module_env.cheap_clone();
 
         // Set up import bindings before bytecode execution
-        self.setup_import_bindings(&program)?;
+        if let Err(e) = self.setup_import_bindings(&program) {
+            // Do not leave the module scope installed
+            self.env = saved_env;
+            self.current_module_path = saved_module_path;
+            return Err(e);
+        }
 
         // Execute module using bytecode compilation
         let result = self.execute_program_bytecode(&program);
@@ -3467,7 +3526,12 @@ impl Interpreter {
         self.env = module_env.cheap_clone();
 
         // Set up import bindings before bytecode execution
-        self.setup_import_bindings(&program)?;
+        if let Err(e) = self.setup_import_bindings(&program) {
+            // Do not leave the module scope installed
+            self.env = saved_env;
+            self.exports = saved_exports;
+            return Err(e);
+        }
 
         // Execute the module body using bytecode
         let result = self.execute_program_bytecode(&program);
@@ -3476,7 +3540,10 @@ impl Interpreter {
         self.env = saved_env;
 
         // Handle errors
-        result?;
+        if let Err(e) = result {
+            self.exports = saved_exports;
+            return Err(e);
+        }
 
         // Create module namespace object from exports
         let module_obj = self.create_object(guard);
